@@ -1,4 +1,5 @@
 import InfluxQL.Lemmas.Fields
+import InfluxQL.Model.FieldsOfStmt
 /-!
 # C12 — wildcard expansion yields exactly the schema's columns, deterministically
 
@@ -1015,6 +1016,50 @@ theorem regex_groupby_drops_ungrouped_tags_counterexample :
     ¬ (hasDimensionWildcard [.regex ['^', 'h']] = false ∨
         ∀ t ∈ [sRegion, sHost], groupedBy demoRe [.regex ['^', 'h']] t = true) := by
   decide
+
+/-! ## End to end from the statement text (`rewriteFieldsOfText` = `ParseStatement` then `RewriteFields`)
+
+Executed against the implementation by the stream `fields.text`: the statement (fields, aliases,
+GROUP BY, sources and subqueries, condition) is built by the statement parser model from the text. -/
+
+/-- **C12 end to end (= specification).** When the text parses to a SELECT `s`, what is computed from
+the text is the declarative specification applied to `s`, errors included. -/
+theorem fields_text_eq_spec (m : FieldMapper) (re : Str → Str → Bool) (text : Str)
+    (params : List (Str × BoundValue)) (tbl : List (Char × Char)) (s : SelectStmt)
+    (hp : parseStatementText text params tbl = .ok (.select s)) :
+    rewriteFieldsOfText m re text params tbl = .rewritten (rewriteSpec m re s) := by
+  unfold rewriteFieldsOfText
+  rw [hp]
+  simp only [rewriteFields_eq_spec]
+
+/-- **C12 end to end (never on map iteration order), for every text** — no hypothesis on the text: two
+schemas that list the field columns and tag keys of each measurement in different orders give the same
+outcome for the same statement text, be it the parse error, the rewritten statement, or the error of
+`RewriteFields`. -/
+theorem fields_text_perm_invariant (m m' : FieldMapper) (h : MapperPerm m m') (re : Str → Str → Bool)
+    (text : Str) (params : List (Str × BoundValue)) (tbl : List (Char × Char)) :
+    rewriteFieldsOfText m re text params tbl = rewriteFieldsOfText m' re text params tbl := by
+  unfold rewriteFieldsOfText
+  cases parseStatementText text params tbl with
+  | error f => rfl
+  | ok st =>
+    cases st <;> try rfl
+    simp only [rewriteFields_perm_invariant m m' h re]
+
+/-- **C12 end to end (no wildcard left).** When the text parses to a SELECT and the rewrite succeeds, no
+statement at any nesting depth of the result has a bare `*` / regex field or GROUP BY dimension. -/
+theorem fields_text_removes_wildcards (m : FieldMapper) (re : Str → Str → Bool) (text : Str)
+    (params : List (Str × BoundValue)) (tbl : List (Char × Char)) (s' : SelectStmt)
+    (h : rewriteFieldsOfText m re text params tbl = .rewritten (.ok s')) : noWholeWild s' = true := by
+  unfold rewriteFieldsOfText at h
+  cases hp : parseStatementText text params tbl with
+  | error f => rw [hp] at h; cases h
+  | ok st =>
+    rw [hp] at h
+    cases st <;> try (cases h; done)
+    rename_i s
+    simp only [FieldsTextResult.rewritten.injEq] at h
+    exact rewrite_removes_wildcards m re s s' h
 
 /-! ## Non-vacuity -/
 
